@@ -1972,4 +1972,222 @@ example : ∀ o ∈ [Op.setTr false .nonEmpty, .setVer false .h3, .getContent fa
 example : (⟨some [1], some brN, true, some 5, .nonEmpty, .h3⟩ : Msg).core = ⟨some [1], some brN, true, some 5, .absent, .h11⟩ ∧
     (⟨some [1], some brN, true, some 5, .nonEmpty, .h3⟩ : Msg).core ≠ ⟨some [1], some brN, true, some 5, .nonEmpty, .h3⟩ := by decide
 
+/-! ## deepening round 5: the empty-cache hypothesis `h0` replaced by the invariant itself
+
+  Every theorem above starts its histories in a state with an EMPTY cache.  That is stronger than needed: all that
+  is used is `Inv C s.cache` ("the entry, if any, has a compressed coding and is a true statement about the uncached
+  decoder").  `inv_of_empty` + `inv_preserved` + the `_inv` forms below give every statement for every history
+  from ANY such state (e.g. a process that has been running for a while); `inv_needed_counterexample` shows the
+  hypothesis cannot be dropped altogether. -/
+
+theorem inv_of_empty (C : Codecs) (c : Cache) (h : c = none) : Inv C c := by
+  intro e he; rw [h] at he; cases he
+
+/-- the invariant is preserved by every history of ops -/
+theorem inv_preserved (C : Codecs) (s : State) (ops : List Op) (hi : Inv C s.cache) : Inv C (run C s ops).1.cache :=
+  run_inv' C ops s hi
+
+/-- `decode_transparent` from any state satisfying the invariant -/
+theorem decode_transparent_inv (C : Codecs) (s : State) (hi : Inv C s.cache) (x coding errors : Bytes) :
+    (step C s (.dec x coding errors)).2 = uncachedDec C coding errors x := by
+  have := decodeStep_res hi x coding errors (freshOf C s (.dec x coding errors))
+    (by intro h; simp [freshOf, need, needDec_of errors x h])
+  simpa [step, stepWith] using this
+
+/-- `encode_semantically_transparent` from any state satisfying the invariant -/
+theorem encode_semantically_transparent_inv (C : Codecs) (s : State) (hi : Inv C s.cache) (d coding errors : Bytes) :
+    (kindOf (asciiLower coding) = .cached → ∃ x, (step C s (.enc d coding errors)).2 = .ok x) ∧
+    (kindOf (asciiLower coding) = .identity ∨ kindOf (asciiLower coding) = .cached →
+      ∀ x, (step C s (.enc d coding errors)).2 = .ok x → uncachedDec C coding errors x = .ok d) := by
+  have hres : (step C s (.enc d coding errors)).2 =
+      (encodeStep s.cache d coding errors (freshOf C s (.enc d coding errors))).1 := by
+    simp [step, stepWith]
+  have hcached : kindOf (asciiLower coding) = .cached →
+      ∃ x, (step C s (.enc d coding errors)).2 = .ok x ∧ C.dec (asciiLower coding) errors x = .ok d ∧
+        identityDec.contains (asciiLower coding) = false := by
+    intro hk
+    have hid := (cached_facts ((kind_cached_iff _).mp hk)).1
+    obtain ⟨x, c', he, hdec, _, _⟩ := encodeStep_cachedKind hi d coding errors (freshOf C s (.enc d coding errors)) hk
+      (by simp [freshOf, need, needEnc_of errors d (tbl_identity ▸ hid)])
+    exact ⟨x, by rw [hres, he], hdec, hid⟩
+  constructor
+  · intro hk
+    obtain ⟨x, hx, _⟩ := hcached hk
+    exact ⟨x, hx⟩
+  · rintro (hk | hk) x hx
+    · rw [hres, encodeStep_identityKind hi d coding errors _ hk] at hx
+      cases hx
+      simp only [uncachedDec, (kind_identity_iff _).mp hk, if_true]
+    · obtain ⟨x', hx', hdec, hid⟩ := hcached hk
+      rw [hx'] at hx
+      cases hx
+      simp only [uncachedDec, hid, Bool.false_eq_true, if_false, hdec]
+
+/-- `get_content_transparent` from any state satisfying the invariant -/
+theorem get_content_transparent_inv (C : Codecs) (s : State) (hi : Inv C s.cache) (i st : Bool) :
+    (step C s (.getContent i st)).2 = contentOf C (s.msg i) st := get_transparent_inv hi i st
+
+/-- `set_get_content` from any state satisfying the invariant -/
+theorem set_get_content_inv (C : Codecs) (s : State) (hi : Inv C s.cache) (i : Bool) (v : Bytes)
+    (hok : OkName (effName (s.msg i).ce)) :
+    (step C s (.setContent i (some v))).2 = .done ∧
+    (step C (step C s (.setContent i (some v))).1 (.getContent i true)).2 = .ok v := set_get_inv hi i v hok
+
+/-- `set_content_idempotent` from any state satisfying the invariant -/
+theorem set_content_idempotent_inv (C : Codecs) (s : State) (hi : Inv C s.cache) (i : Bool) (v : Bytes)
+    (hok : OkName (effName (s.msg i).ce)) :
+    step C (step C s (.setContent i (some v))).1 (.setContent i (some v)) = ((step C s (.setContent i (some v))).1, .done) :=
+  (set_again_inv hi i v hok).1
+
+/-- `decode_idempotent` from any state satisfying the invariant -/
+theorem decode_idempotent_inv (C : Codecs) (s : State) (hi : Inv C s.cache) (i st : Bool)
+    (hok : OkName (effName (s.msg i).ce)) :
+    step C (step C s (.mdecode i st)).1 (.mdecode i st) = step C s (.mdecode i st) := mdecode_again_inv hi i st hok
+
+/-- `raw_decodes_to_content_lenient` from any state satisfying the invariant -/
+theorem raw_decodes_to_content_lenient_inv (C : Codecs) (s : State) (hi : Inv C s.cache) (i : Bool) (v : Bytes)
+    (hk : kindOf (effName (s.msg i).ce) = .cached) :
+    ∃ raw, ((step C s (.setContent i (some v))).1.msg i).raw = some raw ∧
+      C.dec (effName (s.msg i).ce) strictB raw = .ok v := by
+  obtain ⟨x, h1, h2, _⟩ := raw_after_set hi i v hk
+  exact ⟨x, h1, h2⟩
+
+/-- `decode_encode_preserves` from any state satisfying the invariant -/
+theorem decode_encode_preserves_inv (C : Codecs) (s : State) (hi : Inv C s.cache) (i st : Bool) (v cd : Bytes)
+    (hhdr : OkName (effName (s.msg i).ce)) (hcd : OkName (effName (some cd)))
+    (hget : (step C s (.getContent i true)).2 = .ok v) :
+    (step C s (.mdecode i st)).2 = .done ∧
+    (step C (step C (step C s (.mdecode i st)).1 (.mencode i cd)).1 (.getContent i true)).2 = .ok v := by
+  obtain ⟨hd, hraw⟩ := mdecode_inv hi i st v hhdr hget
+  obtain ⟨_, _, hg⟩ := mencode_inv (step_inv C s (.mdecode i st) hi) i cd v hraw hcd
+  exact ⟨hd, hg true⟩
+
+/-- a cache entry that is NOT a true statement about the decoder (here: toy bytes `[5]` claimed to decode to `[9]`
+    under "br") breaks transparency: the hypothesis `Inv` cannot be dropped -/
+theorem inv_needed_counterexample :
+    ∃ s : State, ¬ Inv toy s.cache ∧
+      (step toy s (.dec [5] brN strictB)).2 ≠ uncachedDec toy brN strictB [5] := by
+  refine ⟨⟨some ⟨[5], brN, strictB, [9]⟩, emptyMsg, emptyMsg⟩, ?_, by decide⟩
+  intro h
+  have := (h _ rfl).2
+  revert this
+  decide
+
+/-! ## deepening round 5: mitmproxy's own decoder lenience is a transcription, the libraries shrink to `Lib`
+
+  `ownDecodeWith` transcribes `identity` / `decode_gzip` / `decode_deflate` / `decode_brotli` / `decode_zstd` (the
+  `if not content: return b""` shortcut and the raw-deflate fallback) and is tied to the real functions by the
+  driver op `own`.  `ofLib` builds a `Codecs` from a library `Lib` (two laws: round trip, empty-in ⇒ empty-out)
+  and the `codecs` registry `PyReg`; the former law FIELDS `dec_empty`, `dec_shape`, `roundtrip`, `ref_enc`,
+  `ref_dec` ("lenient extends strict") become THEOREMS about the transcription.  Every theorem of this file
+  holds for `ofLib L P` by instantiation. -/
+
+private theorem tbl_decfn : ∀ n ∈ cachedDec, (decFnOf n).isSome = true ∧ decFnOf n ≠ some .identity := by decide
+
+private theorem decFn_of_cached {n : Bytes} (hk : kindOf n = .cached) : ∃ fn, decFnOf n = some fn ∧ fn ≠ .identity := by
+  obtain ⟨h1, h2⟩ := tbl_decfn n (List.contains_iff_mem.mp ((kind_cached_iff n).mp hk))
+  cases h : decFnOf n with
+  | none => rw [h] at h1; simp at h1
+  | some fn => exact ⟨fn, rfl, fun e => h2 (by rw [h, e])⟩
+
+private theorem own_empty (fn : DecFn) (l1 l2 : Option Bytes) : ownDecodeWith fn [] l1 l2 = .ok [] := by
+  cases fn <;> rfl
+
+private theorem own_of_lib1 (fn : DecFn) (hfn : fn ≠ .identity) (x d : Bytes) (l2 : Option Bytes)
+    (hx : x = [] → d = []) : ownDecodeWith fn x (some d) l2 = .ok d := by
+  by_cases he : x = []
+  · subst he; rw [own_empty, hx rfl]
+  · have : x.isEmpty = false := by cases x <;> simp_all
+    cases fn <;> simp_all [ownDecodeWith]
+
+private theorem own_shape (fn : DecFn) (x : Bytes) (l1 l2 : Option Bytes) :
+    (∃ d, ownDecodeWith fn x l1 l2 = .ok d) ∨ ownDecodeWith fn x l1 l2 = .verr := by
+  cases fn <;> simp only [ownDecodeWith] <;> (try exact Or.inl ⟨x, rfl⟩) <;> split <;>
+    first | exact Or.inl ⟨[], rfl⟩ | (cases l1 <;> cases l2 <;> simp)
+
+/-- `Codecs` built from mitmproxy's own (transcribed) decoder functions over a compression library -/
+def ofLib (L : Lib) (P : PyReg) : Codecs where
+  enc n e d := if kindOf n = .cached then .ok (L.compress n d) else P.enc n e d
+  dec n e x := if kindOf n = .cached then ownDecode L n x else P.dec n e x
+  ref n x := if kindOf n = .cached then L.decompress n x else none
+  enc_total := by intro n e d hk; exact ⟨L.compress n d, by simp [hk]⟩
+  roundtrip := by
+    intro n e d x hk h
+    simp only [hk, if_true] at h ⊢
+    cases h
+    obtain ⟨fn, hfn, hne⟩ := decFn_of_cached hk
+    simp only [ownDecode, hfn, L.roundtrip]
+    exact own_of_lib1 fn hne _ d _ (fun he => L.decompress_empty n d (by rw [← he]; exact L.roundtrip n d))
+  dec_empty := by
+    intro n e hk
+    obtain ⟨fn, hfn, _⟩ := decFn_of_cached hk
+    simp only [hk, if_true, ownDecode, hfn]
+    exact own_empty fn _ _
+  dec_shape := by
+    intro n e x hk
+    obtain ⟨fn, hfn, _⟩ := decFn_of_cached hk
+    simp only [hk, if_true, ownDecode, hfn]
+    exact own_shape fn x _ _
+  unknown_enc := by
+    intro n e d hk
+    have : kindOf n ≠ .cached := by rw [hk]; decide
+    simp only [this, if_false]
+    exact P.unknown_enc n e d hk
+  unknown_dec := by
+    intro n e x hk
+    have : kindOf n ≠ .cached := by rw [hk]; decide
+    simp only [this, if_false]
+    exact P.unknown_dec n e x hk
+  ref_enc := by
+    intro n e d x hk h
+    simp only [hk, if_true] at h ⊢
+    cases h
+    exact L.roundtrip n d
+  ref_dec := by
+    intro n e x d hk h
+    simp only [hk, if_true] at h ⊢
+    obtain ⟨fn, hfn, hne⟩ := decFn_of_cached hk
+    simp only [ownDecode, hfn, h]
+    exact own_of_lib1 fn hne x d _ (fun he => L.decompress_empty n d (by rw [← he]; exact h))
+
+/-- **the empty-body rule is a theorem about the transcribed decoders** (was the law field `dec_empty`):
+    for every compressed coding, in any letter case, decoding the empty body yields the empty content — whatever
+    the library would say about an empty input. -/
+theorem own_decoders_accept_empty (L : Lib) (P : PyReg) (coding errors : Bytes)
+    (hk : kindOf (asciiLower coding) = .cached) : uncachedDec (ofLib L P) coding errors [] = .ok [] := by
+  have hid := (cached_facts ((kind_cached_iff _).mp hk)).1
+  simp only [uncachedDec, hid, Bool.false_eq_true, if_false]
+  exact (ofLib L P).dec_empty _ _ hk
+
+/-- **"lenient extends strict" is a theorem about the transcribed decoders** (was the law field `ref_dec`): whatever
+    the library's own decoder call accepts, mitmproxy's wrapper returns unchanged — its additions (empty shortcut,
+    raw-deflate fallback) only ever ADD accepted inputs. -/
+theorem own_decoders_extend_library (L : Lib) (P : PyReg) (n e x d : Bytes) (hk : kindOf n = .cached)
+    (h : L.decompress n x = some d) : (ofLib L P).dec n e x = .ok d :=
+  (ofLib L P).ref_dec n e x d hk (by simp [ofLib, hk, h])
+
+/-- the raw-deflate fallback of `decode_deflate`, as transcribed: if `zlib.decompress` rejects the body but raw
+    inflation accepts it, the wrapper returns the raw-inflated bytes; the three other wrappers have no fallback -/
+theorem own_deflate_fallback (x d : Bytes) (hx : x ≠ []) :
+    ownDecodeWith .deflate x none (some d) = .ok d ∧ ownDecodeWith .gzip x none (some d) = .verr ∧
+    ownDecodeWith .brotli x none (some d) = .verr ∧ ownDecodeWith .zstd x none (some d) = .verr := by
+  have : x.isEmpty = false := by cases x <;> simp_all
+  simp [ownDecodeWith, this]
+
+/-- **F-C31a needs no lenient LIBRARY**: with a perfectly strict toy library, mitmproxy's own empty-body shortcut
+    alone makes the full strict raw-body statement false (read the empty "br" body, assign `b""`). -/
+theorem raw_decodes_to_content_counterexample_own_shortcut : ¬ RawDecodesToContent (ofLib toyLib toyPy) := by
+  intro h
+  have := h cexState [.getContent false true] false [] rfl (by decide)
+  revert this
+  decide
+
+-- non-vacuity: the transcribed wrappers on the toy library (strict accepts 1 :: d, raw inflation accepts 2 :: d)
+example : (ofLib toyLib toyPy).dec gzipN strictB [1, 7] = .ok [7] ∧ (ofLib toyLib toyPy).dec gzipN strictB [2, 7] = .verr ∧
+    (ofLib toyLib toyPy).dec [0x64, 0x65, 0x66, 0x6c, 0x61, 0x74, 0x65] strictB [2, 7] = .ok [7] ∧
+    (ofLib toyLib toyPy).dec brN strictB [] = .ok [] ∧ (ofLib toyLib toyPy).ref brN [] = none ∧
+    (ofLib toyLib toyPy).dec utf8N strictB [5] = .str ∧ (ofLib toyLib toyPy).dec fooN strictB [5] = .verr := by decide
+example : (run (ofLib toyLib toyPy) okState [.mdecode false true, .mencode false gzipN, .getContent false true]).2 =
+    [.done, .done, .ok [7, 8]] := by decide
+
 end MitmVerif.Props.C31
